@@ -69,7 +69,7 @@ func (e *Exec) heap(s *State, name, sortS string) *Node {
 		return h
 	}
 	// initial version shared by all states of this execution (same entry heap)
-	h := TS.Const("heap0:"+sanitize(name), sortS)
+	h := TS.Const(e.heap0Name(name), sortS)
 	e.heapSorts[name] = sortS
 	// make sure the entry state (if exists) also knows it
 	if e.entry != nil {
@@ -663,4 +663,11 @@ func (e *Exec) mergeStates(ss []*State) *State {
 		out.defers = merged
 	}
 	return out
+}
+
+func (e *Exec) heap0Name(name string) string {
+	if e.mode == ModeBV {
+		return "heap0bv:" + sanitize(name)
+	}
+	return "heap0:" + sanitize(name)
 }
